@@ -28,7 +28,7 @@ template <class T> static std::vector<Case<T>> pair_cases(T p, Rng& g, int nrand
   }
   // structured magnitudes: operands 2^b, 2^b+1, 2^(b+1)-1, 3*2^(b-1) with b1+b2 around the limb width, so that the
   // products straddle p, 2p, 3p, 2^w and 2^(w+1) (half-limb fast paths, quotient digits, conditional subtractions)
-  {
+  if (!env_u64("VERIF_NOSTRUCT", 0)) {
     const int w = bits<T>();
     auto mags = [&](int b, T out[4]) {
       T one = 1;
